@@ -1,33 +1,24 @@
-import Driver.Codec
+import Driver.Ops.Run
+/-! Line-protocol driver of the model: one JSON case per input line, one JSON answer per line.
+    To add an op: write `Driver/Ops/<Name>.lean`, import it here, add one line to `opTable`
+    (or to `outputTable` for a new output kind of op `run`). -/
 open Lean Tackler Codec
 
-def okV (v : Json) : Json := Json.mkObj [("r", "OK"), ("v", v)]
+/-- output kinds of op `run` -/
+def outputTable : List (String × Ops.OutputFn) := [
+  ("txns", Ops.outTxns)
+]
 
-/-- one wanted output of op `run` -/
-def output (_st : Settings) (ts : List Txn) (w : String) : Json :=
-  match w with
-  | "txns" => okV (jTxns ts)
-  | _ => Json.mkObj [("r", "NOMODEL")]
-
-/-- op `run`: settings + journal AST (+ wanted outputs) ⇒ load status and outputs -/
-def opRun (j : Json) : R Json := do
-  let st ← settings (← field j "cfg")
-  let rs ← rawTxns (← field j "txns")
-  let want ← match optField j "want" with
-    | some w => strList w
-    | none => pure []
-  match loadJournal st rs with
-  | .err => pure (Json.mkObj [("r", "ERR")])
-  | .undef => pure (Json.mkObj [("r", "UNDEF")])
-  | .ok (ts, st') =>
-    pure (Json.mkObj [("r", "OK"), ("n", .num (JsonNumber.fromNat ts.length)),
-      ("out", Json.mkObj (want.map (fun w => (w, output st' ts w))))])
+/-- ops -/
+def opTable : List (String × (Json → R Json)) := [
+  ("run", Ops.opRun outputTable)
+]
 
 def dispatch (j : Json) : R Json := do
   let op ← str (← field j "op")
-  match op with
-  | "run" => opRun j
-  | _ => throw s!"unknown op {op}"
+  match opTable.lookup op with
+  | some f => f j
+  | none => throw s!"unknown op {op}"
 
 partial def loop (h : IO.FS.Stream) (out : IO.FS.Stream) : IO Unit := do
   let line ← h.getLine
